@@ -365,6 +365,9 @@ class IfrittComponent(
     @reducer_method
     def use(self, _: None, state: IfrittState):
         state, event = self.use_periodic_damage_trait(state)
+        if is_rejected(event):
+            return state, event
+
         return state, event + [self.get_dot_add_event()]
 
     @view_method
@@ -505,6 +508,9 @@ class FlameSwipVI(
     @reducer_method
     def use(self, _: None, state: FlameSwipVIState):
         state, event = self.use_simple_attack(state)
+        if is_rejected(event):
+            return state, event
+
         event += [self.get_dot_add_event()]
         state.stack.increase(1)
 
